@@ -126,6 +126,11 @@ def stepRec (c : Chain) (cur : St) (i : StepIn) : Rec :=
   else
     { st := cur, acc := { ar := d.ar, accepted := false } }
 
+/-- Componentwise Andrieu–Thoms scaling makes one *virtual* evaluation of the model per
+    parameter of the proposal, in every update that falls inside its adaptation window. -/
+def extraCalls (ps : List PropSt) : Nat :=
+  (ps.map fun p => if p.cfg.comp && p.callJump && p.inWindow then p.cfg.params.length else 0).sum
+
 /-- `Chain.step`. `none` = the start position was never set (the real code raises). -/
 def step (c : Chain) (i : StepIn) : Option Chain :=
   match c.current with
@@ -137,7 +142,7 @@ def step (c : Chain) (i : StepIn) : Option Chain :=
       proposed := some prop
       scratch := setAt c.scratch c.len r
       iteration := c.iteration + 1
-      calls := c.calls + 1
+      calls := c.calls + 1 + extraCalls c.props
       props := c.props.map (fun p => p.update r.acc.accepted r.acc.ar r.st.pos) }
 
 /-! ### Memory management -/
